@@ -1,7 +1,1148 @@
-//! C18 harness (stub until built)
+//! C18: targets agree on everything that is target-independent.
+//!
+//! C18.cross   \t <seed> \t <variant> \t <decls> \t <pipes> \t <verdicts>
+//!     the program is regenerated from (seed, variant); decls / pipes / verdicts are derived (inputs of the model):
+//!     decls    `g_r0:Texture2D:3:0;g_r1:cbuffer:-:0;g_r2:SamplerState:-:1;g_u:Texture2D:*:0`  (name:kind:len:static sampler)
+//!     pipes    `P0:Compute=cs_0@8x4x1;P1:Vertex=vs_1,Pixel=ps_2`
+//!     verdicts `dx=ok,vk=ok,vkba=ok,msl=back`   (ok | front | back | panic)
+//!   observe : `dx{P0[Compute:cs_0:8,4,1]|g_r0:Texture2d:3,g_r2:SamplerState:1:ss} vk{..} vkba{..} msl{back}`
+//!             (stages of every pipeline; bindings of the first pipeline sorted by name)
+//!   oracle  : (independent of the model, in the property's words) same front-end verdict and diagnostic text on all
+//!             four targets; dx / vk / vkba succeed or fail together; dx and vk sources equal token for token after
+//!             erasing `: register(..)` and `[[vk::..]]`; vk and vkba byte-equal when the file declares no buffer
+//!             address; same stage kinds and thread-group sizes everywhere, same entry names among the HLSL flavours;
+//!             same pipeline state; same multiset of (binding name, kind, count) once static samplers and buffer
+//!             addresses (known from the *declarations*) are put aside.
+//! C18.defines \t <tgt>
+//!   observe : `__HLSL_VERSION=2021;RSSL_TARGET_HLSL=1;RSSL_TARGET_MSL=0` read back through compile() with a probing file
+//! C18.pp      \t <tgt> \t <user defines> \t <program>
+//!     object-like macros + conditional directives; lines separated by ` ;; `:
+//!     `T toks` text, `D NAME toks`, `U NAME`, `IFDEF NAME`, `IFNDEF NAME`, `IF toks`, `ELIF toks`, `ELSE`, `ENDIF`
+//!   observe : `ok:<tokens>` | `err:<kind>` from the real preprocessor started with the define list *observed* for the target
+//!   oracle  : programs that do not mention RSSL_TARGET_* give the same result on all four targets
+use crate::compile_util::*;
+use crate::progen::*;
 use crate::util::*;
 
-pub fn run(_args: &Args, _out: &mut Out) {
-    eprintln!("C18: harness not built yet");
-    std::process::exit(2);
+// ------------------------------------------------------------------------------------------------ running the compiler
+
+#[derive(Clone, Debug, PartialEq)]
+struct BindingInfo {
+    group: usize,
+    name: String,
+    kind: String,
+    count: Option<u32>,
+    ss: bool,
+}
+
+#[derive(Clone, Debug, PartialEq)]
+struct PipeInfo {
+    text: String,
+    /// (stage, entry point, thread group size)
+    stages: Vec<(String, String, Option<(u32, u32, u32)>)>,
+    state: String,
+    bindings: Vec<BindingInfo>,
+}
+
+#[derive(Clone, Debug, PartialEq)]
+enum Verdict {
+    Ok(Vec<PipeInfo>),
+    Err(String),
+    Panic(String),
+}
+
+fn compile_info(files: &[(String, String)], defines: &[(&str, &str)], tgt: Tgt, mode: &Mode) -> Verdict {
+    let r = guard(|| {
+        let mut inc = MemFiles(files.to_vec());
+        let mut args = rssl::CompileArgs::new("main.rssl", &mut inc, tgt.target())
+            .defines(defines)
+            .support_buffer_address(tgt.buffer_address());
+        match mode {
+            Mode::All => {}
+            Mode::Named(n) => args = args.pipeline_name(Some(n.as_str())),
+            Mode::NoPipeline => args = args.no_pipeline_mode(),
+        }
+        match rssl::compile(args) {
+            Ok(ps) => Ok(ps
+                .into_iter()
+                .map(|p| {
+                    let mut bindings = Vec::new();
+                    for (g, group) in p.metadata.bind_groups.iter().enumerate() {
+                        for b in &group.bindings {
+                            bindings.push(BindingInfo {
+                                group: g,
+                                name: b.name.clone(),
+                                kind: format!("{:?}", b.descriptor_type),
+                                count: b.descriptor_count,
+                                ss: b.static_sampler.is_some(),
+                            });
+                        }
+                    }
+                    PipeInfo {
+                        text: String::from_utf8_lossy(&p.data).into_owned(),
+                        stages: p
+                            .stages
+                            .iter()
+                            .map(|s| (format!("{:?}", s.stage), s.entry_point.clone(), s.thread_group_size))
+                            .collect(),
+                        state: format!("{:?}", p.graphics_pipeline_state),
+                        bindings,
+                    }
+                })
+                .collect::<Vec<_>>()),
+            Err(e) => Err(format!("{}", e)),
+        }
+    });
+    match r {
+        Ok(Ok(v)) => Verdict::Ok(v),
+        Ok(Err(e)) => Verdict::Err(e),
+        Err(p) => Verdict::Panic(p),
+    }
+}
+
+/// Errors raised after the front end (documented GenerateErrors / format errors of the two exporters)
+fn is_backend_error(e: &str) -> bool {
+    const MARKS: [&str; 5] = [
+        "error: metal generate:",
+        "error: metal format:",
+        "error: hlsl generate:",
+        "error: hlsl format:",
+        "error: interpolator required by pixel stage has not been provided",
+    ];
+    MARKS.iter().any(|m| e.starts_with(m))
+}
+
+fn class(v: &Verdict) -> &'static str {
+    match v {
+        Verdict::Ok(_) => "ok",
+        Verdict::Err(e) if is_backend_error(e) => "back",
+        Verdict::Err(_) => "front",
+        Verdict::Panic(_) => "panic",
+    }
+}
+
+// ------------------------------------------------------------------------------------------------ variants
+
+/// Declaration as the model sees it
+#[derive(Clone, Debug)]
+struct DeclDesc {
+    name: String,
+    kind: String,
+    /// "-" single, "*" unsized, number
+    len: String,
+    ss: bool,
+}
+
+struct Built {
+    src: String,
+    decls: Vec<DeclDesc>,
+    prog: Program,
+    /// the variant is meant to be rejected by the front end
+    expect_front_reject: bool,
+    /// further files reachable through #include
+    includes: Vec<(String, String)>,
+    /// defines handed to compile() through the API
+    defines: Vec<(String, String)>,
+    /// control: the file *does* test a target macro, the oracle is expected to flag it
+    control: bool,
+}
+
+pub const VARIANTS: &[&str] = &[
+    "plain",
+    "plain",
+    "plain",
+    "state",
+    "pp-guard",
+    "pp-macros",
+    "pp-version",
+    "pp-dead-garbage",
+    "unbounded",
+    "reserved-matrix",
+    "reserved-vector",
+    "reserved-double",
+    "reserved-cb",
+    "reserved-kernel",
+    "e-lex-top",
+    "e-lex-end",
+    "e-pp-endif",
+    "e-pp-unknown",
+    "e-pp-include",
+    "e-pp-if",
+    "e-pp-unterminated",
+    "e-parse-top",
+    "e-parse-mid",
+    "e-parse-end",
+    "e-type-undef-mid",
+    "e-type-undef-end",
+    "e-type-unknown-type",
+    "e-type-dup-struct",
+    "e-type-args",
+    "e-type-in-entry",
+    "e-pipe-entry",
+    "e-pipe-dup",
+    "e-pipe-state",
+    "e-pipe-prop",
+    "api-define",
+    "include",
+    "include",
+    "e-include-type",
+    "e-include-parse",
+    "plain",
+    "state",
+    "pp-macros",
+    "ctl-target-macro",
+    "ctl-concat",
+    "layout-trap",
+    "reserved-texture",
+    "reserved-sampler",
+];
+
+fn decls_of(p: &Program) -> Vec<DeclDesc> {
+    p.resources
+        .iter()
+        .map(|r| DeclDesc {
+            name: r.name.clone(),
+            kind: r.kind.clone(),
+            len: match r.len {
+                Some(n) => n.to_string(),
+                None => "-".into(),
+            },
+            ss: r.static_sampler,
+        })
+        .collect()
+}
+
+/// index of the first line that starts a function (resources and structs come before)
+fn first_function_line(lines: &[&str]) -> usize {
+    lines
+        .iter()
+        .position(|l| l.starts_with("void ") || l.starts_with("[numthreads") || l.starts_with("float4 "))
+        .unwrap_or(lines.len())
+}
+
+fn insert_lines(src: &str, at: usize, text: &str) -> String {
+    let lines: Vec<&str> = src.lines().collect();
+    let at = at.min(lines.len());
+    let mut out = String::new();
+    for l in &lines[..at] {
+        out.push_str(l);
+        out.push('\n');
+    }
+    out.push_str(text);
+    if !text.ends_with('\n') {
+        out.push('\n');
+    }
+    for l in &lines[at..] {
+        out.push_str(l);
+        out.push('\n');
+    }
+    out
+}
+
+fn add_state(src: &str) -> String {
+    // graphics pipelines get explicit state
+    let mut out = String::new();
+    for l in src.lines() {
+        out.push_str(l);
+        out.push('\n');
+        if l.trim_start().starts_with("PixelShader = ") {
+            out.push_str("    RenderTargetFormat0 = \"R8G8B8A8_UNORM\";\n    DepthTargetFormat = \"D32_FLOAT\";\n    CullMode = \"None\";\n    WindingOrder = \"Clockwise\";\n    BlendState =\n    {\n        BlendEnabled = true;\n        SrcBlend = \"SrcAlpha\";\n        DstBlend = \"OneMinusSrcAlpha\";\n    }\n");
+        }
+    }
+    out
+}
+
+/// remove resource `i` from the program (uses are re-indexed)
+fn drop_resource(p: &mut Program, i: usize) {
+    if i >= p.resources.len() {
+        return;
+    }
+    let fix = |f: &mut Func| {
+        f.uses.retain(|u| *u != i);
+        for u in f.uses.iter_mut() {
+            if *u > i {
+                *u -= 1;
+            }
+        }
+    };
+    for h in p.helpers.iter_mut() {
+        fix(h);
+    }
+    for e in p.entries.iter_mut() {
+        fix(&mut e.func);
+    }
+    p.resources.remove(i);
+}
+
+/// `variant~r0.r3.p1.h.s`: the variant applied to the generated program minus resources 0 and 3 (indices of the
+/// original program), minus pipeline 1, without helper calls (`h`) and without static globals (`s`); used by shrinking
+fn build(seed: u64, variant_full: &str) -> Option<Built> {
+    let (variant, drops) = match variant_full.split_once('~') {
+        Some((v, d)) => (v, d),
+        None => (variant_full, ""),
+    };
+    let mut b = build_with(seed, variant, drops)?;
+    if !drops.is_empty() {
+        b.expect_front_reject = false;
+    }
+    Some(b)
+}
+
+fn build_with(seed: u64, variant: &str, drops: &str) -> Option<Built> {
+    let mut rng = Rng::new(seed);
+    let opts = GenOpts { allow_mesh: seed % 3 == 0, ..GenOpts::default() };
+    let mut prog = gen_program(&mut rng, &opts);
+    // files without any pipeline only exercise one diagnostic: keep a few, regenerate the rest
+    let mut tries = 0;
+    while prog.pipes.is_empty() && seed % 16 != 1 && tries < 20 {
+        prog = gen_program(&mut rng, &opts);
+        tries += 1;
+    }
+    let mut expect_front_reject = variant.starts_with("e-");
+    // shrinking: drop parts of the generated program (highest index first so that indices stay meaningful)
+    let mut rdrop: Vec<usize> = Vec::new();
+    let mut pdrop: Vec<usize> = Vec::new();
+    for d in drops.split('.').filter(|d| !d.is_empty()) {
+        match (d.chars().next(), d[1..].parse::<usize>()) {
+            (Some('r'), Ok(i)) => rdrop.push(i),
+            (Some('p'), Ok(i)) => pdrop.push(i),
+            (Some('h'), _) => {
+                for e in prog.entries.iter_mut() {
+                    e.func.calls.clear();
+                }
+                prog.helpers.clear();
+            }
+            (Some('s'), _) => {
+                prog.nstatics = 0;
+                for e in prog.entries.iter_mut() {
+                    e.func.statics.clear();
+                }
+                for h in prog.helpers.iter_mut() {
+                    h.statics.clear();
+                }
+            }
+            _ => return None,
+        }
+    }
+    if rdrop.iter().any(|i| *i >= prog.resources.len()) || pdrop.iter().any(|i| *i >= prog.pipes.len()) {
+        return None;
+    }
+    rdrop.sort();
+    rdrop.dedup();
+    for i in rdrop.into_iter().rev() {
+        drop_resource(&mut prog, i);
+    }
+    pdrop.sort();
+    pdrop.dedup();
+    for i in pdrop.into_iter().rev() {
+        if i < prog.pipes.len() {
+            prog.pipes.remove(i);
+        }
+    }
+    // program-level edits
+    if let Some(which) = variant.strip_prefix("reserved-") {
+        // `reserved-<identifier>`: the first non-cbuffer resource gets that name; `reserved-cb`: a cbuffer named `matrix`
+        let (name, want_cb) = match which {
+            "cb" => ("matrix", true),
+            n if !n.is_empty() && n.chars().all(|c| c.is_ascii_alphanumeric() || c == '_') => (n, false),
+            _ => return None,
+        };
+        let idx = prog.resources.iter().position(|r| (r.kind == "cbuffer") == want_cb);
+        match idx {
+            Some(i) => prog.resources[i].name = name.to_string(),
+            None => {
+                prog.resources.push(Resource {
+                    name: name.to_string(),
+                    ty: if want_cb { "cbuffer".into() } else { "Texture2D<float4>".into() },
+                    kind: if want_cb { "cbuffer".into() } else { "Texture2D".into() },
+                    group: None,
+                    len: None,
+                    static_sampler: false,
+                    bindless: false,
+                });
+            }
+        }
+    }
+    let mut decls = decls_of(&prog);
+    let mut includes: Vec<(String, String)> = Vec::new();
+    let mut defines: Vec<(String, String)> = Vec::new();
+    let mut control = false;
+    let mut src = render(&prog, &|_| true);
+    if seed % 3 == 0 || variant == "state" {
+        src = add_state(&src);
+    }
+    let nlines = src.lines().count();
+    let lines: Vec<&str> = src.lines().collect();
+    let ff = first_function_line(&lines);
+    let mid = if nlines > ff { ff + (seed as usize % (nlines - ff).max(1)) } else { ff };
+    // a position between two top-level definitions at or after `mid`
+    let mid_top = (mid..nlines)
+        .find(|&i| i == 0 || lines[i - 1] == "}" || lines[i - 1].ends_with(';') && !lines[i - 1].starts_with(' '))
+        .unwrap_or(nlines);
+    drop(lines);
+    src = match variant {
+        "plain" | "state" => src,
+        v if v.starts_with("reserved-") => src,
+        "pp-guard" => format!("#ifndef MAIN_GUARD\n#define MAIN_GUARD\n{}#endif\n#ifndef MAIN_GUARD\nthis is never parsed @\n#endif\n", src),
+        "pp-macros" => {
+            // object-like macros used in types, sizes and names
+            let s = src.replace("float4(0, 0, 0, 1)", "ORIGIN").replace("64, 1, 1", "GROUP_SIZE");
+            format!("#define ZERO 0\n#define ORIGIN float4(ZERO, ZERO, ZERO, 1)\n#define GROUP_SIZE 64, 1, 1\n#define UNUSED_MACRO ORIGIN + UNUSED_MACRO\n{}", s)
+        }
+        "pp-version" => format!(
+            "#if __HLSL_VERSION >= 2021 && defined(__HLSL_VERSION)\n#define VERSION_OK 1\n#else\n#define VERSION_OK 0\n#endif\n#if VERSION_OK\n{}#else\nerror version\n#endif\n",
+            src
+        ),
+        "pp-dead-garbage" => insert_lines(&src, mid_top, "#if 0\nvoid broken( { ) ) 12 + ;\n#elif defined(NOT_DEFINED_ANYWHERE)\nalso broken )\n#endif"),
+        "unbounded" => {
+            decls.push(DeclDesc { name: "g_unbounded".into(), kind: "Texture2D".into(), len: "*".into(), ss: false });
+            insert_lines(&src, ff, "Texture2D<float4> g_unbounded[];")
+        }
+        "api-define" => {
+            defines.push(("ARRAY_LEN".into(), "2".into()));
+            defines.push(("USE_EXTRA".into(), "1".into()));
+            defines.push(("EXTRA_TYPE".into(), "Texture2D<float4>".into()));
+            decls.push(DeclDesc { name: "g_extra".into(), kind: "Texture2D".into(), len: "2".into(), ss: false });
+            insert_lines(&src, ff, "#if USE_EXTRA && defined(ARRAY_LEN)\nEXTRA_TYPE g_extra[ARRAY_LEN];\n#else\nthis branch is dead (\n#endif")
+        }
+        "include" | "e-include-type" | "e-include-parse" => {
+            // declarations go to an included file (included twice, guarded by #pragma once), functions stay
+            let lines: Vec<&str> = src.lines().collect();
+            let mut common = String::from("#pragma once\n");
+            for l in &lines[..ff] {
+                common.push_str(l);
+                common.push('\n');
+            }
+            match variant {
+                "e-include-type" => common.push_str("static NoSuchType g_in_include;\n"),
+                "e-include-parse" => common.push_str("static int g_in_include = (;\n"),
+                _ => {}
+            }
+            let mut main = String::from("#include \"common/decls.rssl\"\n#include \"common/decls.rssl\"\n");
+            for l in &lines[ff..] {
+                main.push_str(l);
+                main.push('\n');
+            }
+            includes.push(("common/decls.rssl".into(), common));
+            main
+        }
+        "layout-trap" => {
+            // a struct whose HLSL structured-buffer layout and Metal layout differ: accepted everywhere as long as the
+            // optional layout validation is off for every target
+            decls.push(DeclDesc { name: "g_trap".into(), kind: "StructuredBuffer".into(), len: "-".into(), ss: false });
+            insert_lines(&src, ff, "struct LayoutTrap { float a; float2 b; float3 c; };\nStructuredBuffer<LayoutTrap> g_trap;")
+        }
+        "ctl-target-macro" => {
+            control = true;
+            format!("{}#if RSSL_TARGET_MSL\nstatic NoSuchType g_only_on_metal;\n#endif\n", src)
+        }
+        "ctl-concat" => {
+            control = true;
+            format!("#define CAT(a, b) a##b\n{}#if CAT(RSSL_TARGET_, MSL)\nstatic NoSuchType g_only_on_metal;\n#endif\n", src)
+        }
+        "e-lex-top" => insert_lines(&src, 1, "static int bad_char = 1 ` 2;"),
+        "e-lex-end" => format!("{}static int bad_number = 12abc34;\n", src),
+        "e-pp-endif" => insert_lines(&src, mid_top, "#endif"),
+        "e-pp-unknown" => insert_lines(&src, mid_top, "#frobnicate now"),
+        "e-pp-include" => insert_lines(&src, mid_top, "#include \"does_not_exist.rssl\""),
+        "e-pp-if" => insert_lines(&src, mid_top, "#if (1 +\n#endif"),
+        "e-pp-unterminated" => format!("{}#ifdef MAIN_GUARD\n#else\n", src),
+        "e-parse-top" => insert_lines(&src, 1, "static int broken = ;"),
+        "e-parse-mid" => insert_lines(&src, mid_top, "void broken_fn( {"),
+        "e-parse-end" => format!("{}struct Unfinished {{ int a;\n", src),
+        "e-type-undef-mid" => insert_lines(&src, mid_top, "void bad_fn() { undefined_name; }"),
+        "e-type-undef-end" => format!("{}void bad_fn() {{ undefined_name = 1; }}\n", src),
+        "e-type-unknown-type" => insert_lines(&src, mid_top, "static UnknownType g_bad;"),
+        "e-type-dup-struct" => insert_lines(&src, mid_top, "struct CbS { float4 w; };"),
+        "e-type-args" => insert_lines(&src, mid_top, "void bad_fn() { float4 v = float4(1, 2); float3 w = v.xyzq; }"),
+        "e-type-in-entry" => {
+            // first statement of the first function body
+            match src.find("{\n    ") {
+                Some(i) if src[..i].contains(')') => format!("{}{{\n    undefined_in_body;\n    {}", &src[..i], &src[i + 6..]),
+                _ => format!("{}void bad_fn() {{ undefined_in_body; }}\n", src),
+            }
+        }
+        "e-pipe-entry" => format!("{}Pipeline PBad\n{{\n    ComputeShader = no_such_entry;\n}}\n", src),
+        "e-pipe-dup" => {
+            if prog.pipes.is_empty() {
+                format!("{}Pipeline PD {{ }}\nPipeline PD {{ }}\n", src)
+            } else {
+                format!("{}Pipeline P0\n{{\n}}\n", src)
+            }
+        }
+        "e-pipe-state" => format!(
+            "{}[numthreads(1, 1, 1)]\nvoid cs_state() {{}}\nPipeline PState\n{{\n    ComputeShader = cs_state;\n    CullMode = \"None\";\n}}\n",
+            src
+        ),
+        "e-pipe-prop" => format!(
+            "{}[numthreads(1, 1, 1)]\nvoid cs_prop() {{}}\nPipeline PProp\n{{\n    ComputeShader = cs_prop;\n    NoSuchProperty = 1;\n}}\n",
+            src
+        ),
+        _ => return None,
+    };
+    if variant == "e-pp-unterminated" {
+        expect_front_reject = true;
+    }
+    Some(Built { src, decls, prog, expect_front_reject, includes, defines, control })
+}
+
+// ------------------------------------------------------------------------------------------------ oracle helpers
+
+/// crude lexer used to compare HLSL sources token for token
+fn tokens(s: &str) -> Vec<String> {
+    let b: Vec<char> = s.chars().collect();
+    let mut out = Vec::new();
+    let mut i = 0;
+    while i < b.len() {
+        let c = b[i];
+        if c.is_whitespace() {
+            i += 1;
+        } else if c.is_alphanumeric() || c == '_' {
+            let j = (i..b.len()).find(|&j| !(b[j].is_alphanumeric() || b[j] == '_' || b[j] == '.')).unwrap_or(b.len());
+            out.push(b[i..j].iter().collect());
+            i = j;
+        } else if c == '"' {
+            let j = (i + 1..b.len()).find(|&j| b[j] == '"').map(|j| j + 1).unwrap_or(b.len());
+            out.push(b[i..j].iter().collect());
+            i = j;
+        } else {
+            out.push(c.to_string());
+            i += 1;
+        }
+    }
+    out
+}
+
+fn skip_parens(t: &[String], mut i: usize) -> usize {
+    // t[i] == "(" ; returns the index after the matching ")"
+    let mut depth = 0;
+    while i < t.len() {
+        if t[i] == "(" {
+            depth += 1;
+        } else if t[i] == ")" {
+            depth -= 1;
+            if depth == 0 {
+                return i + 1;
+            }
+        }
+        i += 1;
+    }
+    i
+}
+
+/// erase `: register(..)` and `[[vk::..]]` annotations
+fn erase_annotations(t: &[String]) -> Vec<String> {
+    let mut out = Vec::new();
+    let mut i = 0;
+    while i < t.len() {
+        if t[i] == ":" && i + 2 < t.len() && t[i + 1] == "register" && t[i + 2] == "(" {
+            i = skip_parens(t, i + 2);
+        } else if t[i] == "[" && i + 4 < t.len() && t[i + 1] == "[" && t[i + 2] == "vk" && t[i + 3] == ":" && t[i + 4] == ":" {
+            let mut j = i + 5;
+            while j + 1 < t.len() && !(t[j] == "]" && t[j + 1] == "]") {
+                j += 1;
+            }
+            i = j + 2;
+        } else {
+            out.push(t[i].clone());
+            i += 1;
+        }
+    }
+    out
+}
+
+fn first_diff(a: &[String], b: &[String]) -> String {
+    let k = a.iter().zip(b.iter()).position(|(x, y)| x != y).unwrap_or(a.len().min(b.len()));
+    let ctx = |v: &[String]| v[k.saturating_sub(4)..(k + 4).min(v.len())].join(" ");
+    format!("at token {}: `{}` vs `{}`", k, ctx(a), ctx(b))
+}
+
+fn show_threads(t: &Option<(u32, u32, u32)>) -> String {
+    match t {
+        Some((x, y, z)) => format!("{},{},{}", x, y, z),
+        None => "-".into(),
+    }
+}
+
+fn show_target(name: &str, v: &Verdict, pipe_names: &[String]) -> String {
+    match v {
+        Verdict::Ok(ps) => {
+            let mut s = format!("{}{{", name);
+            for (i, p) in ps.iter().enumerate() {
+                if i > 0 {
+                    s.push(';');
+                }
+                let st: Vec<String> =
+                    p.stages.iter().map(|(st, e, t)| format!("{}:{}:{}", st, e, show_threads(t))).collect();
+                s.push_str(&format!("{}[{}]", pipe_names.get(i).cloned().unwrap_or_else(|| "?".into()), st.join(",")));
+            }
+            s.push('|');
+            if let Some(p) = ps.first() {
+                let mut bs: Vec<String> = p
+                    .bindings
+                    .iter()
+                    .map(|b| {
+                        format!(
+                            "{}:{}:{}{}",
+                            b.name,
+                            b.kind,
+                            b.count.map(|c| c.to_string()).unwrap_or_else(|| "*".into()),
+                            if b.ss { ":ss" } else { "" }
+                        )
+                    })
+                    .collect();
+                bs.sort();
+                s.push_str(&bs.join(","));
+            }
+            s.push('}');
+            s
+        }
+        other => format!("{}{{{}}}", name, class(other)),
+    }
+}
+
+fn run_cross(seed: u64, variant: &str, out: &mut Out, hist: &mut Hist) {
+    let Some(b) = build(seed, variant) else {
+        out.case(&format!("C18.cross\t{}\t{}\t\t\t", seed, variant), "", "SKIP:unknown variant");
+        return;
+    };
+    let mut files = vec![("main.rssl".to_string(), b.src.clone())];
+    files.extend(b.includes.iter().cloned());
+    let defs: Vec<(&str, &str)> = b.defines.iter().map(|(a, c)| (a.as_str(), c.as_str())).collect();
+    let results: Vec<(Tgt, Verdict)> =
+        ALL_TARGETS.iter().map(|t| (*t, compile_info(&files, &defs, *t, &Mode::All))).collect();
+    let decls: Vec<String> =
+        b.decls.iter().map(|d| format!("{}:{}:{}:{}", d.name, d.kind, d.len, if d.ss { 1 } else { 0 })).collect();
+    let pipe_names: Vec<String> = b.prog.pipes.iter().map(|p| p.name.clone()).collect();
+    let pipes: Vec<String> = b
+        .prog
+        .pipes
+        .iter()
+        .map(|p| {
+            let st: Vec<String> = p
+                .stages
+                .iter()
+                .map(|k| {
+                    let e = &b.prog.entries[*k];
+                    match e.threads {
+                        Some(t) => format!("{}={}@{}x{}x{}", e.stage, e.func.name, t.0, t.1, t.2),
+                        None => format!("{}={}", e.stage, e.func.name),
+                    }
+                })
+                .collect();
+            format!("{}:{}", p.name, st.join(","))
+        })
+        .collect();
+    let verdicts: Vec<String> = results.iter().map(|(t, v)| format!("{}={}", t.name(), class(v))).collect();
+    let req = format!(
+        "C18.cross\t{}\t{}\t{}\t{}\t{}",
+        seed,
+        variant,
+        decls.join(";"),
+        pipes.join(";"),
+        verdicts.join(",")
+    );
+    let obs: Vec<String> = results.iter().map(|(t, v)| show_target(t.name(), v, &pipe_names)).collect();
+    let obs = obs.join(" ");
+
+    // ---------------------------------------------------------------- the property's own oracle
+    let mut fails: Vec<String> = Vec::new();
+    let get = |t: Tgt| &results.iter().find(|(x, _)| *x == t).unwrap().1;
+    let (dx, vk, vkba, msl) = (get(Tgt::Dx), get(Tgt::Vk), get(Tgt::VkBa), get(Tgt::Msl));
+    // 1. front-end verdict and diagnostic
+    let front = |v: &Verdict| -> Result<(), String> {
+        match v {
+            Verdict::Ok(_) => Ok(()),
+            Verdict::Err(e) if is_backend_error(e) => Ok(()),
+            Verdict::Err(e) => Err(e.clone()),
+            Verdict::Panic(p) => Err(format!("panic {}", p)),
+        }
+    };
+    for (t, v) in &results[1..] {
+        // a panic inside a back end after an accepted front end is C08's business, not a front-end verdict
+        if let (Verdict::Panic(_), Ok(())) = (v, front(dx)) {
+            hist.add(&format!("backend-or-late-panic:{}", t.name()));
+            continue;
+        }
+        if let (Verdict::Panic(_), _) = (dx, v) {
+            continue;
+        }
+        if front(v) != front(dx) {
+            fails.push(format!(
+                "front-end verdict differs dx vs {}: {} / {}",
+                t.name(),
+                one_line(&format!("{:?}", front(dx)).chars().take(120).collect::<String>()),
+                one_line(&format!("{:?}", front(v)).chars().take(120).collect::<String>())
+            ));
+        }
+    }
+    if let Verdict::Panic(p) = dx {
+        // all targets must at least die at the same place for the verdicts to agree
+        for (t, v) in &results[1..] {
+            if v != dx {
+                fails.push(format!("dx panics ({}) but {} does not do the same", p, t.name()));
+            }
+        }
+    }
+    // 2. the HLSL flavours succeed or fail together
+    let okf = |v: &Verdict| matches!(v, Verdict::Ok(_));
+    if okf(dx) != okf(vk) || okf(dx) != okf(vkba) {
+        fails.push(format!("HLSL flavours do not succeed together: dx={} vk={} vkba={}", class(dx), class(vk), class(vkba)));
+    }
+    let has_address = b.decls.iter().any(|d| d.kind.contains("Address"));
+    let aside: Vec<&str> =
+        b.decls.iter().filter(|d| d.ss || d.kind.contains("Address")).map(|d| d.name.as_str()).collect();
+    if let (Verdict::Ok(d), Verdict::Ok(v), Verdict::Ok(va)) = (dx, vk, vkba) {
+        if d.len() != v.len() || d.len() != va.len() {
+            fails.push(format!("pipeline counts differ: dx={} vk={} vkba={}", d.len(), v.len(), va.len()));
+        } else {
+            for i in 0..d.len() {
+                // 3. sources differ only in annotations
+                let (td, tv) = (erase_annotations(&tokens(&d[i].text)), erase_annotations(&tokens(&v[i].text)));
+                if td != tv {
+                    fails.push(format!("pipeline {}: dx and vk sources differ beyond annotations {}", i, first_diff(&td, &tv)));
+                }
+                if tokens(&d[i].text) == tokens(&v[i].text) && !b.decls.is_empty() && d[i].bindings.len() > 0 {
+                    fails.push(format!("pipeline {}: dx and vk sources are identical although bindings exist", i));
+                }
+                if !has_address && v[i].text != va[i].text {
+                    fails.push(format!("pipeline {}: vk and vk+buffer-address sources differ without any buffer address", i));
+                }
+                // 4. entry names among the HLSL flavours
+                if d[i].stages != v[i].stages || d[i].stages != va[i].stages {
+                    fails.push(format!("pipeline {}: stage reports differ between HLSL flavours", i));
+                }
+            }
+        }
+    }
+    // 5. stages, sizes, state, bindings across every target that produced output
+    let produced: Vec<(Tgt, &Vec<PipeInfo>)> =
+        results.iter().filter_map(|(t, v)| if let Verdict::Ok(p) = v { Some((*t, p)) } else { None }).collect();
+    if let Some((t0, p0)) = produced.first() {
+        for (t, p) in &produced[1..] {
+            if p.len() != p0.len() {
+                fails.push(format!("{} built {} pipelines, {} built {}", t0.name(), p0.len(), t.name(), p.len()));
+                continue;
+            }
+            for i in 0..p.len() {
+                let ks = |x: &PipeInfo| x.stages.iter().map(|(s, _, g)| (s.clone(), *g)).collect::<Vec<_>>();
+                if ks(&p[i]) != ks(&p0[i]) {
+                    fails.push(format!("pipeline {}: stages / thread-group sizes differ {} vs {}", i, t0.name(), t.name()));
+                }
+                if p[i].state != p0[i].state {
+                    fails.push(format!("pipeline {}: pipeline state differs {} vs {}", i, t0.name(), t.name()));
+                }
+                let core = |x: &PipeInfo| {
+                    let mut v: Vec<(String, String, Option<u32>)> = x
+                        .bindings
+                        .iter()
+                        .filter(|b| !aside.contains(&b.name.as_str()))
+                        .map(|b| (b.name.clone(), b.kind.clone(), b.count))
+                        .collect();
+                    v.sort();
+                    v
+                };
+                let (c0, c1) = (core(&p0[i]), core(&p[i]));
+                if c0 != c1 {
+                    let only0: Vec<_> = c0.iter().filter(|x| !c1.contains(x)).collect();
+                    let only1: Vec<_> = c1.iter().filter(|x| !c0.contains(x)).collect();
+                    fails.push(format!(
+                        "pipeline {}: bindings differ {} vs {}: only {}: {:?}; only {}: {:?}",
+                        i,
+                        t0.name(),
+                        t.name(),
+                        t0.name(),
+                        only0,
+                        t.name(),
+                        only1
+                    ));
+                }
+            }
+        }
+    }
+    let _ = msl;
+    hist.add(&format!("variant={}", variant));
+    hist.add(&format!("verdicts={}", verdicts.join(",")));
+    hist.add(&format!("pipes={}", b.prog.pipes.len()));
+    hist.add(&format!("resources={}", b.decls.len()));
+    for d in &b.decls {
+        hist.add(&format!("kind={}", d.kind));
+    }
+    if b.expect_front_reject && class(dx) != "front" {
+        hist.add(&format!("inject-not-rejected:{}", variant));
+    }
+    if let Verdict::Err(e) = msl {
+        if is_backend_error(e) {
+            hist.add(&format!("msl-backend={}", e.chars().take(60).collect::<String>()));
+        }
+    }
+    if let Verdict::Err(e) = dx {
+        let k: String = e.lines().next().unwrap_or("").split("error:").nth(1).unwrap_or("?").trim().chars().take(40).collect();
+        hist.add(&format!("diag={}", k));
+    }
+    fails.dedup();
+    if b.control {
+        // the file tests a target macro on purpose: the oracle has to notice
+        let oracle = if fails.iter().any(|f| f.starts_with("front-end verdict differs")) {
+            hist.add("control-detected");
+            "ok".to_string()
+        } else {
+            "FAIL:control file that tests RSSL_TARGET_MSL was not told apart".to_string()
+        };
+        out.case(&req, &obs, &oracle);
+        return;
+    }
+    let oracle = if fails.is_empty() { "ok".to_string() } else { format!("FAIL:{}", fails[0]) };
+    out.case(&req, &obs, &oracle);
+}
+
+// ------------------------------------------------------------------------------------------------ C18.defines
+
+const PROBE_NAMES: &[&str] = &[
+    "__HLSL_VERSION",
+    "RSSL_TARGET_HLSL",
+    "RSSL_TARGET_MSL",
+    "RSSL_TARGET_VULKAN",
+    "RSSL_TARGET_DIRECTX",
+    "RSSL_TARGET_SPIRV",
+    "RSSL_TARGET_METAL",
+    "RSSL_TARGET",
+    "__RSSL__",
+    "RSSL",
+    "__cplusplus",
+    "__METAL_VERSION__",
+];
+
+/// the define list as seen from inside a file compiled for the target
+fn observed_defines(tgt: Tgt) -> Result<Vec<(String, String)>, String> {
+    let mut src = String::new();
+    for (i, n) in PROBE_NAMES.iter().enumerate() {
+        src.push_str(&format!("#ifdef {}\nstatic const uint probe_value_{} = {};\n#endif\n", n, i, n));
+    }
+    let files = [("main.rssl".to_string(), src)];
+    match compile_info(&files, &[], tgt, &Mode::NoPipeline) {
+        Verdict::Ok(ps) => {
+            let text = &ps[0].text;
+            let mut out = Vec::new();
+            for (i, n) in PROBE_NAMES.iter().enumerate() {
+                let key = format!("probe_value_{} = ", i);
+                if let Some(p) = text.find(&key) {
+                    let rest = &text[p + key.len()..];
+                    let v: String = rest.chars().take_while(|c| c.is_ascii_alphanumeric()).collect();
+                    out.push((n.to_string(), v.trim_end_matches('u').to_string()));
+                }
+            }
+            Ok(out)
+        }
+        Verdict::Err(e) => Err(format!("err {}", one_line(&e))),
+        Verdict::Panic(p) => Err(format!("panic {}", p)),
+    }
+}
+
+fn run_defines(tgt: Tgt, out: &mut Out) {
+    let req = format!("C18.defines\t{}", tgt.name());
+    match observed_defines(tgt) {
+        Ok(ds) => {
+            let obs: Vec<String> = ds.iter().map(|(n, v)| format!("{}={}", n, v)).collect();
+            out.case(&req, &obs.join(";"), "ok");
+        }
+        Err(e) => out.case(&req, &e, &format!("FAIL:the probing file does not compile: {}", e)),
+    }
+}
+
+// ------------------------------------------------------------------------------------------------ C18.pp
+
+const PP_IDS: &[&str] = &["a", "b", "c", "X", "Y", "Z", "FOO", "BAR", "__HLSL_VERSION", "defined_x"];
+const PP_MACROS: &[&str] = &["X", "Y", "Z", "FOO", "BAR"];
+const TARGET_MACROS: &[&str] = &["RSSL_TARGET_HLSL", "RSSL_TARGET_MSL"];
+
+fn gen_toks(rng: &mut Rng, n: u64, mention: bool) -> Vec<String> {
+    let mut v = Vec::new();
+    for _ in 0..n {
+        match rng.below(10) {
+            0 => v.push(rng.below(4).to_string()),
+            1 => v.push("+".into()),
+            2 if mention => v.push(rng.pick(TARGET_MACROS).to_string()),
+            _ => v.push(rng.pick(PP_IDS).to_string()),
+        }
+    }
+    v
+}
+
+fn gen_cond(rng: &mut Rng, mention: bool, depth: u32) -> Vec<String> {
+    let name = |rng: &mut Rng| -> String {
+        if mention && rng.chance(1, 2) { rng.pick(TARGET_MACROS).to_string() } else { rng.pick(PP_IDS).to_string() }
+    };
+    match rng.below(if depth == 0 { 6 } else { 9 }) {
+        0 => vec![rng.below(3).to_string()],
+        1 => vec![name(rng)],
+        2 => vec!["defined".into(), "(".into(), name(rng), ")".into()],
+        3 => vec!["defined".into(), name(rng)],
+        4 => vec!["!".into(), "defined".into(), "(".into(), name(rng), ")".into()],
+        5 => vec![name(rng), "==".into(), rng.below(3).to_string()],
+        6 => {
+            let mut v = vec!["(".to_string()];
+            v.extend(gen_cond(rng, mention, depth - 1));
+            v.push(")".into());
+            v.push(if rng.chance(1, 2) { "&&".into() } else { "||".into() });
+            v.extend(gen_cond(rng, mention, depth - 1));
+            v
+        }
+        7 => {
+            let mut v = vec!["!".to_string(), "(".to_string()];
+            v.extend(gen_cond(rng, mention, depth - 1));
+            v.push(")".into());
+            v
+        }
+        _ => {
+            // malformed on purpose
+            match rng.below(3) {
+                0 => vec!["defined".into(), "(".into(), ")".into()],
+                1 => vec!["(".into(), name(rng)],
+                _ => vec![name(rng), "+".into()],
+            }
+        }
+    }
+}
+
+fn gen_pp_program(rng: &mut Rng, mention: bool) -> Vec<String> {
+    let n = 2 + rng.below(12);
+    let mut lines = Vec::new();
+    let mut depth = 0u32;
+    for _ in 0..n {
+        match rng.below(14) {
+            0..=3 => {
+                let k = 1 + rng.below(5);
+                lines.push(format!("T {}", gen_toks(rng, k, mention).join(" ")));
+            }
+            4 | 5 => {
+                let name = rng.pick(PP_MACROS).to_string();
+                let k = rng.below(4);
+                lines.push(format!("D {} {}", name, gen_toks(rng, k, mention).join(" ")).trim_end().to_string());
+            }
+            6 => lines.push(format!("U {}", rng.pick(PP_MACROS))),
+            7 => {
+                depth += 1;
+                let n = if mention && rng.chance(1, 3) { rng.pick(TARGET_MACROS) } else { rng.pick(PP_IDS) };
+                lines.push(format!("{} {}", if rng.chance(1, 2) { "IFDEF" } else { "IFNDEF" }, n));
+            }
+            8 | 9 => {
+                depth += 1;
+                lines.push(format!("IF {}", gen_cond(rng, mention, 2).join(" ")));
+            }
+            10 if depth > 0 || rng.chance(1, 8) => lines.push(format!("ELIF {}", gen_cond(rng, mention, 1).join(" "))),
+            11 if depth > 0 || rng.chance(1, 8) => lines.push("ELSE".into()),
+            12 | 13 if depth > 0 || rng.chance(1, 10) => {
+                depth = depth.saturating_sub(1);
+                lines.push("ENDIF".into());
+            }
+            _ => lines.push(format!("T {}", gen_toks(rng, 2, mention).join(" "))),
+        }
+    }
+    // usually close what is open
+    if !rng.chance(1, 10) {
+        for _ in 0..depth {
+            lines.push("ENDIF".into());
+        }
+    }
+    lines
+}
+
+fn render_pp(lines: &[&str]) -> Option<String> {
+    let mut s = String::new();
+    for l in lines {
+        let (k, rest) = l.split_once(' ').unwrap_or((l, ""));
+        match k {
+            "T" => s.push_str(&format!("{}\n", rest)),
+            "D" => s.push_str(&format!("#define {}\n", rest)),
+            "U" => s.push_str(&format!("#undef {}\n", rest)),
+            "IFDEF" => s.push_str(&format!("#ifdef {}\n", rest)),
+            "IFNDEF" => s.push_str(&format!("#ifndef {}\n", rest)),
+            "IF" => s.push_str(&format!("#if {}\n", rest)),
+            "ELIF" => s.push_str(&format!("#elif {}\n", rest)),
+            "ELSE" => s.push_str("#else\n"),
+            "ENDIF" => s.push_str("#endif\n"),
+            _ => return None,
+        }
+    }
+    Some(s)
+}
+
+fn show_token(t: &rssl::text::tokens::Token) -> String {
+    use rssl::text::tokens::Token;
+    match t {
+        Token::Id(id) => id.0.clone(),
+        Token::LiteralInt(n) => n.to_string(),
+        Token::Plus => "+".into(),
+        Token::LeftParen => "(".into(),
+        Token::RightParen => ")".into(),
+        Token::ExclamationPoint => "!".into(),
+        Token::AmpersandAmpersand => "&&".into(),
+        Token::VerticalBarVerticalBar => "||".into(),
+        Token::EqualsEquals => "==".into(),
+        other => format!("<{:?}>", other),
+    }
+}
+
+fn pp_real(src: &str, defines: &[(String, String)]) -> String {
+    let defs: Vec<(&str, &str)> = defines.iter().map(|(a, b)| (a.as_str(), b.as_str())).collect();
+    let r = guard(|| {
+        let mut sm = rssl::text::SourceManager::new();
+        let mut inc = MemFiles(vec![("main.rssl".to_string(), src.to_string())]);
+        match rssl::preprocess::preprocess("main.rssl", &mut sm, &mut inc, &defs) {
+            Ok(toks) => {
+                let v: Vec<String> = toks.iter().filter(|t| !t.0.is_whitespace()).map(|t| show_token(&t.0)).collect();
+                format!("ok:{}", v.join(" "))
+            }
+            Err(e) => {
+                use rssl::preprocess::PreprocessError as E;
+                let k = match e {
+                    E::ElseNotMatched => "ElseNotMatched".to_string(),
+                    E::EndIfNotMatched => "EndIfNotMatched".to_string(),
+                    E::ConditionChainNotFinished => "ConditionChainNotFinished".to_string(),
+                    E::FailedToParseIfCondition(_)
+                    | E::MacroExpectsDifferentNumberOfArguments
+                    | E::MacroArgumentsNeverEnd
+                    | E::MacroRequiresArguments(_) => "BadCondition".to_string(),
+                    other => format!("{:?}", other).split('(').next().unwrap_or("?").to_string(),
+                };
+                format!("err:{}", k)
+            }
+        }
+    });
+    match r {
+        Ok(s) => s,
+        Err(p) => format!("panic:{}", p),
+    }
+}
+
+fn parse_user_defines(s: &str) -> Vec<(String, String)> {
+    s.split(',')
+        .filter(|x| !x.is_empty())
+        .filter_map(|x| x.split_once('=').map(|(a, b)| (a.to_string(), b.to_string())))
+        .collect()
+}
+
+fn run_pp(user: &str, program: &str, out: &mut Out, hist: &mut Hist, defs_by_target: &[(Tgt, Vec<(String, String)>)]) {
+    let lines: Vec<&str> = program.split(" ;; ").collect();
+    let Some(src) = render_pp(&lines) else {
+        out.case(&format!("C18.pp\tdx\t{}\t{}", user, program), "", "SKIP:bad program");
+        return;
+    };
+    let mentions = TARGET_MACROS.iter().any(|m| program.split(' ').any(|w| w == *m) || user.contains(m));
+    let mut obs_all = Vec::new();
+    for (t, defs) in defs_by_target {
+        let mut d = defs.clone();
+        d.extend(parse_user_defines(user));
+        obs_all.push((*t, pp_real(&src, &d)));
+    }
+    let all_same = obs_all.iter().all(|(_, o)| *o == obs_all[0].1);
+    hist.add(if mentions { "pp-mentions" } else { "pp-clean" });
+    hist.add(&format!("pp-outcome={}", obs_all[0].1.split(':').take(2).collect::<Vec<_>>().join(":").split(' ').next().unwrap_or("")));
+    if mentions && !all_same {
+        hist.add("pp-mentions-and-differs");
+    }
+    if obs_all[0].1.starts_with("panic:") {
+        // a panic that every target shares is C08's business, not a disagreement between targets
+        hist.add("pp-panic-on-every-target");
+    }
+    for (t, o) in &obs_all {
+        let oracle = if !mentions && *o != obs_all[0].1 {
+            format!("FAIL:preprocessor output depends on the target although RSSL_TARGET_* is not mentioned: dx `{}` vs {} `{}`", obs_all[0].1, t.name(), o)
+        } else if o.starts_with("panic:") && !all_same {
+            format!("FAIL:panic {}", &o[6..])
+        } else {
+            "ok".to_string()
+        };
+        out.case(&format!("C18.pp\t{}\t{}\t{}", t.name(), user, program), o, &oracle);
+    }
+}
+
+// ------------------------------------------------------------------------------------------------ driver
+
+pub fn run(args: &Args, out: &mut Out) {
+    let mut hist = Hist::default();
+    // debugging aid: `harness c18 dump <seed> <variant>` prints the generated file and what every target says
+    if args.extra.first().map(|s| s.as_str()) == Some("dump") && args.extra.len() >= 3 {
+        if let (Ok(seed), Some(b)) = (args.extra[1].parse::<u64>(), build(args.extra[1].parse().unwrap_or(0), &args.extra[2])) {
+            let _ = seed;
+            println!("{}", b.src);
+            let mut files = vec![("main.rssl".to_string(), b.src.clone())];
+            files.extend(b.includes.iter().cloned());
+            for (n, c) in &b.includes {
+                println!("---- {}\n{}", n, c);
+            }
+            let defs: Vec<(&str, &str)> = b.defines.iter().map(|(a, c)| (a.as_str(), c.as_str())).collect();
+            for t in ALL_TARGETS {
+                match compile_info(&files, &defs, t, &Mode::All) {
+                    Verdict::Ok(ps) => {
+                        for p in ps {
+                            println!("==== {} {:?} {}\n{:?}\n{}", t.name(), p.stages, p.state, p.bindings, p.text);
+                        }
+                    }
+                    Verdict::Err(e) => println!("==== {} ERR {}", t.name(), e),
+                    Verdict::Panic(e) => println!("==== {} PANIC {}", t.name(), e),
+                }
+            }
+        }
+        return;
+    }
+    let defs_by_target = |out: &mut Out| -> Vec<(Tgt, Vec<(String, String)>)> {
+        let _ = out;
+        ALL_TARGETS.iter().map(|t| (*t, observed_defines(*t).unwrap_or_default())).collect()
+    };
+    if let Some(lines) = args.request_lines() {
+        let mut defs: Option<Vec<(Tgt, Vec<(String, String)>)>> = None;
+        let mut seen_pp: std::collections::HashSet<(String, String)> = Default::default();
+        for line in lines {
+            let f: Vec<&str> = line.split('\t').collect();
+            match f[0] {
+                "C18.cross" if f.len() >= 3 => {
+                    if let Ok(seed) = f[1].parse::<u64>() {
+                        run_cross(seed, f[2], out, &mut hist);
+                    }
+                }
+                "C18.defines" if f.len() == 2 => {
+                    if let Some(t) = Tgt::parse(f[1]) {
+                        run_defines(t, out);
+                    }
+                }
+                "C18.pp" if f.len() == 4 => {
+                    // one request line per target is produced for every program: answer each program once
+                    if seen_pp.insert((f[2].to_string(), f[3].to_string())) {
+                        if defs.is_none() {
+                            defs = Some(defs_by_target(out));
+                        }
+                        run_pp(f[2], f[3], out, &mut hist, defs.as_ref().unwrap());
+                    }
+                }
+                _ => {}
+            }
+        }
+        out.stat(&format!("{{\"mode\":\"replay\",\"hist\":{}}}", hist.json()));
+        return;
+    }
+    for t in ALL_TARGETS {
+        run_defines(t, out);
+    }
+    let n = args.n.unwrap_or(if args.thorough() { 10000 } else { 500 });
+    let mut rng = Rng::new(args.seed);
+    for i in 0..n {
+        let seed = rng.next() >> 16;
+        let variant = VARIANTS[(i as usize) % VARIANTS.len()];
+        run_cross(seed, variant, out, &mut hist);
+    }
+    let defs = defs_by_target(out);
+    let npp = if args.thorough() { 20000 } else { 1500 };
+    for i in 0..npp {
+        let mention = i % 4 == 3;
+        let lines = gen_pp_program(&mut rng, mention);
+        let user = match rng.below(4) {
+            0 => "FOO=1".to_string(),
+            1 => "BAR=a + b,Z=0".to_string(),
+            _ => String::new(),
+        };
+        run_pp(&user, &lines.join(" ;; "), out, &mut hist, &defs);
+    }
+    out.stat(&format!("{{\"programs\":{},\"pp_programs\":{},\"hist\":{}}}", n, npp, hist.json()));
 }
